@@ -574,7 +574,9 @@ class DivSIOp(SignlessIntegerBinaryOperation, ConditionallySpeculatableInterface
 
 
 @irdl_op_definition
-class FloorDivSIOp(SignlessIntegerBinaryOperation):
+class FloorDivSIOp(
+    SignlessIntegerBinaryOperation, ConditionallySpeculatableInterface
+):
     """
     Signed floor integer division. Rounds towards negative infinity i.e. `5 / -2 = -3`.
     """
@@ -582,8 +584,19 @@ class FloorDivSIOp(SignlessIntegerBinaryOperation):
     name = "arith.floordivsi"
 
     traits = traits_def(
-        Pure(), SignlessIntegerBinaryOperationHasCanonicalizationPatternsTrait()
+        NoMemoryEffect(),
+        SignlessIntegerBinaryOperationHasCanonicalizationPatternsTrait(),
     )
+
+    def is_speculatable(self) -> bool:
+        # Division by zero and `MIN / -1` are undefined behaviour: only a known, safe
+        # divisor makes the operation speculatable.
+        rhs = ConstantLike.get_constant_value(self.rhs)
+        return (
+            isa(rhs, IntegerAttr[IntegerType | IndexType])
+            and rhs.value.data != 0
+            and rhs.value.data != -1
+        )
 
     @staticmethod
     def is_right_unit(attr: IntegerAttr) -> bool:
@@ -591,12 +604,23 @@ class FloorDivSIOp(SignlessIntegerBinaryOperation):
 
 
 @irdl_op_definition
-class CeilDivSIOp(SignlessIntegerBinaryOperation):
+class CeilDivSIOp(SignlessIntegerBinaryOperation, ConditionallySpeculatableInterface):
     name = "arith.ceildivsi"
 
     traits = traits_def(
-        Pure(), SignlessIntegerBinaryOperationHasCanonicalizationPatternsTrait()
+        NoMemoryEffect(),
+        SignlessIntegerBinaryOperationHasCanonicalizationPatternsTrait(),
     )
+
+    def is_speculatable(self) -> bool:
+        # Division by zero and `MIN / -1` are undefined behaviour: only a known, safe
+        # divisor makes the operation speculatable.
+        rhs = ConstantLike.get_constant_value(self.rhs)
+        return (
+            isa(rhs, IntegerAttr[IntegerType | IndexType])
+            and rhs.value.data != 0
+            and rhs.value.data != -1
+        )
 
     @staticmethod
     def is_right_unit(attr: IntegerAttr) -> bool:
@@ -623,10 +647,20 @@ class RemUIOp(SignlessIntegerBinaryOperation):
 
 
 @irdl_op_definition
-class RemSIOp(SignlessIntegerBinaryOperation):
+class RemSIOp(SignlessIntegerBinaryOperation, ConditionallySpeculatableInterface):
     name = "arith.remsi"
 
-    traits = traits_def(Pure())
+    traits = traits_def(NoMemoryEffect())
+
+    def is_speculatable(self) -> bool:
+        # Division by zero and `MIN / -1` are undefined behaviour: only a known, safe
+        # divisor makes the operation speculatable.
+        rhs = ConstantLike.get_constant_value(self.rhs)
+        return (
+            isa(rhs, IntegerAttr[IntegerType | IndexType])
+            and rhs.value.data != 0
+            and rhs.value.data != -1
+        )
 
 
 @irdl_op_definition
